@@ -1,5 +1,5 @@
 (* C17 — theorems (statements are the *_stmt definitions of Proofs.v / ProofsAlloc.v). *)
-From C17 Require Import Model Proofs ProofsAlloc ProofsFrame ProofsContents ProofsRC.
+From C17 Require Import Model Proofs ProofsAlloc ProofsFrame ProofsContents ProofsRC ProofsSizes ProofsPool ProofsLedger ProofsFinal.
 
 Theorem Inv_init : Inv_init_stmt.
 Proof. exact Inv_init_proof. Qed.
@@ -56,8 +56,87 @@ Theorem RC_count_is_sharers_and_free_iff_zero : RC_counts_stmt.
 Proof. exact RC_counts_proof. Qed.
 Print Assumptions RC_count_is_sharers_and_free_iff_zero.
 
-(* contents of the target handle after build, destroy, shared copy, logcopy, push_back, reallocate/resize;
-   partial: Array0(p,givWithCopy), copy/operator=, allocate, write and reserve are not covered by this theorem *)
-Theorem Target_contents_partial : Target_contents_stmt.
+(* contents of the target handle after build, destroy, shared copy, logcopy, push_back, reallocate/resize, in any state
+   satisfying the invariant *)
+Theorem Target_contents_structural : Target_contents_stmt.
 Proof. exact Target_contents_proof. Qed.
-Print Assumptions Target_contents_partial.
+Print Assumptions Target_contents_structural.
+
+(* ... after Array0(p,givWithCopy) / copy constructor, copy / operator=, allocate, write, reserve *)
+Theorem Target_contents_copying : Target_contents_more_stmt.
+Proof. exact Target_contents_more_proof. Qed.
+Print Assumptions Target_contents_copying.
+
+(* all eleven operation kinds, in every state reachable by an operation sequence from empty handles; a write is seen
+   through exactly the handles sharing the block *)
+Theorem Target_contents : Target_contents_stmt_full.
+Proof. exact Target_contents_full_proof. Qed.
+Print Assumptions Target_contents.
+
+(* handles sharing a block agree on size, capacity and contents (a shrunk shared handle never stays attached) *)
+Theorem SameSize_step : SameSize_step_stmt.
+Proof. exact SameSize_step_proof. Qed.
+Print Assumptions SameSize_step.
+
+Theorem Sharers_same_size : Sharers_same_size_stmt.
+Proof. exact Sharers_same_size_proof. Qed.
+Print Assumptions Sharers_same_size.
+
+Theorem Write_visibility : Write_visibility_stmt.
+Proof. exact Write_visibility_proof. Qed.
+Print Assumptions Write_visibility.
+
+(* GivMMFreeList as a machine (allocate / desallocate / resize sequences): at every point of every run without a double
+   free, the address handed out was not handed out at that moment and is on no free list afterwards *)
+Theorem Pool_never_handed_out_twice : Pool_run_stmt.
+Proof. exact Pool_run_proof. Qed.
+Print Assumptions Pool_never_handed_out_twice.
+
+(* the class of the block handed out is the class search_binary selects for the request; a recycled block comes from the
+   free list of that very class and keeps its header class *)
+Theorem Pool_reuse_same_class : Pool_reuse_stmt.
+Proof. exact Pool_reuse_proof. Qed.
+Print Assumptions Pool_reuse_same_class.
+
+(* on the table of the source: the block handed out holds the request and the class below would not *)
+Theorem Pool_block_fits : Pool_block_fits_stmt.
+Proof. exact Pool_block_fits_proof. Qed.
+Print Assumptions Pool_block_fits.
+
+(* exact accounting of outstanding blocks (a moving resize abandons its source: +1); at quiescence every block ever
+   malloc'ed is on the free list of its own class *)
+Theorem Pool_balance : Pool_balance_stmt.
+Proof. exact Pool_balance_proof. Qed.
+Print Assumptions Pool_balance.
+
+Theorem Pool_balance_tabsize : Pool_balance_tabsize_stmt.
+Proof. exact Pool_balance_tabsize_proof. Qed.
+Print Assumptions Pool_balance_tabsize.
+
+Theorem Pool_quiescent : Pool_quiescent_stmt.
+Proof. exact Pool_quiescent_proof. Qed.
+Print Assumptions Pool_quiescent.
+
+(* GivMMRefCount: when every pointer variable is null nothing is outstanding, every count is 0 *)
+Theorem RC_quiescent : RC_quiescent_stmt.
+Proof. exact RC_quiescent_proof. Qed.
+Print Assumptions RC_quiescent.
+
+(* Array0 on the pool (layers 1 + 3): the allocator calls of every member function form a well-bracketed ledger from the
+   live blocks before to the live blocks after (nothing released twice, nothing released that is not held, nothing
+   allocated twice) *)
+Theorem Ledger_step : Ledger_step_stmt.
+Proof. exact Ledger_step_proof. Qed.
+Print Assumptions Ledger_step.
+
+Theorem Linked_step : Linked_step_stmt.
+Proof. exact Linked_step_proof. Qed.
+Print Assumptions Linked_step.
+
+(* for every operation sequence (whose requests the table can serve): the pool blocks handed out are exactly the storage
+   and the counter cell of the live array blocks, pairwise distinct, none on a free list (no block released while a handle
+   refers to it, none handed out twice); when all handles are empty nothing is outstanding and every block ever malloc'ed
+   is back on the free list of its class *)
+Theorem Array0_pool_balance : Array0_pool_stmt.
+Proof. exact Array0_pool_proof. Qed.
+Print Assumptions Array0_pool_balance.
